@@ -56,7 +56,9 @@ CHECKS["C12"] = dict(
          "per plan, startMu mutual exclusion, no panic, restart rejected with the state unchanged, stale submission rejected, launch only "
          "after a fresh validated read; refutation lemmas show the same model without the lock / waiter check executes twice and panics. "
          "Correspondence (result classes, Status iterator results and per-plan execution counts of child-process histories and concurrent "
-         "Start bursts) kernel-checked with vm_compute on every run via a set-of-states simulation of the model plus a separate monitor.",
+         "Start bursts) kernel-checked with vm_compute on every run via a set-of-states simulation of the model plus a separate monitor. "
+         "The order in which runPlan registers the waiter and spawns the run, the non-cancellable Submit context and Start's lock scope are tied "
+         "to execute.go by a statement shape regenerated from the source on every run (coq/apishape).",
     note="error classification by Go type, nonce-keyed call counting, gates, child-process isolation; not covered: recovery-started runs, "
          "cosmosdb vault, store write failures (log.Fatal), Delete of an executing plan, Status with a non-positive interval, the exact "
          "maxSubmit boundary (proved in the model, sampled >= 400 ms away)",
@@ -166,7 +168,8 @@ CHECKS["C15"] = dict(
          "kernel-checked correspondence on generated vault histories (sqlite in memory and file-backed, cosmosdb fake, raw search items "
          "incl. swarm, and the Search and List query TEXTS parsed and evaluated in Coq).",
     note="SQLite and the Cosmos query engine are trusted to implement the query AST; harness parser for the Cosmos SQL subset; cosmos "
-         "results through the fake compared as sets; not covered: context cancellation mid-stream, consumers abandoning a stream",
+         "results through the fake compared as sets; Search / List under cancelled, just-cancelled and expired contexts must return an error or a "
+         "stream closed within a named bound (c15_stream_closed_any_ctx; exposed defect S9); not covered: consumers abandoning a stream",
     technique="Coq proof (semantic evaluation of the emitted query AST, sort and permutation lemmas, monitor exactness) + differential correspondence with property monitors",
     design="DESIGN.md section 6 C15, section 13")
 CHECKS["C02"] = dict(
